@@ -192,6 +192,8 @@ def random_table(seed: int, i: int):
     p = float(rng.uniform(1, 100)) + np.cumsum(np.exp(rng.uniform(np.log(0.1), np.log(500), n)))
     mu = np.exp(rng.uniform(np.log(0.005), np.log(5), n))
     z = rng.uniform(0.2, 3.0, n)
+    if i % 5 == 2 and n >= 3:
+        p = np.geomspace(float(rng.uniform(5, 50)), float(rng.uniform(2000, 15000)), n)   # log-spaced pressure nodes
     return p, mu, z, bool(i % 3 == 1)
 
 
@@ -240,7 +242,8 @@ def compositions(ctx: core.Ctx):
     if ctx.quick:
         return [(0.65, 200.0, 0.03, 0.012, 0.018, "dry gas", 3000, 40),
                 (0.8, 120.0, 0.0, 0.0, 0.0, "wet gas", 2555, 40),      # maximum pressures that are not multiples of the step
-                (1.0, 300.0, 0.05, 0.01, 0.04, "wet gas", 995.5, 40)]
+                (1.0, 300.0, 0.05, 0.01, 0.04, "wet gas", 995.5, 40),
+                (0.7, 250.0, 0.0, 0.0, 0.0, "dry gas", 15300, 30)]       # a maximum above the default table range
     comps = [(0.65, 200.0, 0.03, 0.012, 0.018, "dry gas", 14000, 80)]     # default table size
     for g in (0.56, 0.7, 0.9, 1.2):
         for T in (80.0, 180.0, 400.0):
